@@ -232,7 +232,7 @@ theorem sector_arc_fault_through_adapters (native : Bool) (B : Rect) (s : Stack)
   ⟨fun k hk => fault_through_adapters native B s _ k hk,
    fun k hk => fault_through_adapters native B s _ k hk⟩
 
--- [V] that the real adapters ARE these four records of functions (Rust tail-expression semantics; `Clipped` / `Cropped` not overriding `clear`; no `Drop` or iterator side effect that touches the target): not proved — the transcription is compared with the code by the `faults.prefix` stream (result, root calls, log length and log digest of the fault-free run and of three sampled fault positions per op, through the six adapter stacks and `color_converted`, on both recording roots) and by the exhaustive fault enumeration of the other `faults.*` streams
+-- (closed) that the real adapters ARE these four records of functions (`Clipped` / `Cropped` not overriding `clear`; every method one parent call in tail position, `Result` untouched; no `Drop` impl): EG/Props/C04/GeneratedAdapters.lean (`src_adapter_methods_return_parent_result`, `src_adapter_call_is_one_parent_call`) over the bodies tools/tr_adapt.py regenerates from the Rust text; the remaining trust (Rust's tail-expression semantics, the translator's parser, iterator side effects) is the [V] line there; the `faults.prefix` stream and the fault enumeration still compare the transcription with the running code
 -- [V] that a drawable's `draw` issues exactly the calls of its model's call list and puts `?` after each (the premise of `runCalls`): the call lists are compared with the real code by each drawable's own correspondence streams and, on faulty runs, by `faults.prefix` for the kinds it models (styled rectangle / circle / ellipse / rounded rectangle, `draw_whitespace`, 1/8/16-bpp images and nested sub-images [the only drawables that reach `Clipped::fill_contiguous` and its cropping iterator], `Pixel::draw`, `PixelIteratorExt::draw`, `clear`); text, sector, arc and the remaining primitives are covered on faulty runs by the fault enumeration only
 -- [V] how many colours / pixels a failing parent pulled from a lazy iterator before the error (the model's streams are finite lists, a failing root call records nothing): outside the model
 
